@@ -45,6 +45,14 @@ CHECKS = {
                 note="Trusted: pbt/flatmodel.py. Positive magnifications only; sub-tolerance (degenerate) magnified paths are not "
                      "generated; robust-path outlines are judged only where outline-then-transform is an identity.",
                 technique="model-based property testing (Hypothesis) of query/flatten histories against an affine-composition oracle"),
+    "C09": dict(level="exploration", design="4 C09",
+                text="Generated hierarchies incl. degenerate contents (collinear, single point, empty) and explicit repetitions under "
+                     "oblique rotations; Cell/Reference/Polygon/Label bounding boxes and convex hulls, uncached and with a shared "
+                     "cache in drawn call orders, are compared with the exact min/max and with hull validity predicates "
+                     "(contains every geometry point, every corner is a geometry point, convex) over geometry flattened by hand.",
+                note="Trusted: pbt/flatmodel.py; path outlines are taken from get_polygons (so the box of a scale_width=false path "
+                     "under a magnified reference is judged against the magnified outline, see known finding C06-K1).",
+                technique="property-based testing (Hypothesis) against an independent min/max and hull-validity oracle over hand-flattened geometry"),
     "C11": dict(level="exploration", design="4 C11",
                 text="Generated repetitions of every kind (zero counts, negative/duplicate/zero vectors, explicit lists to "
                      "length 30) on every element kind are compared with my own enumeration: count, offsets, extrema, "
